@@ -11,8 +11,15 @@ try:
     facts, meta = X.extract(X.workspace_members(), work, bodies="*")
     prog = Program(facts, inline=False)
     keys = sorted(k for k in prog.fns if k.startswith("inkayaku_"))
+    sigs = {}
+    for k in keys:
+        f = prog.fns[k]
+        if "::promoted[" in k or "{closure" in k or f.get("test"):
+            continue
+        n = f["args"] if isinstance(f["args"], int) else len(f["args"])
+        sigs[k] = [l["ty"] for l in f["locals"][:n + 1]]
 finally:
     work.cleanup() if hasattr(work, "cleanup") else None
 out = os.path.join(VERIF, "tables", "known_functions.json")
-json.dump({"_comment": "function keys of the reviewed tree; helpers not listed here are inlined into their callers before the rules run (inkalint/inline.py)", "functions": keys}, open(out, "w"), indent=0)
+json.dump({"_comment": "function keys of the reviewed tree; helpers not listed here are inlined into their callers before the rules run (inkalint/inline.py)", "functions": keys, "signatures": sigs}, open(out, "w"), indent=0)
 print(len(keys), "functions")
